@@ -14,6 +14,7 @@ UNIT_MAP = {
     'handle_table': ['handle_table'],
     'hash_map': ['hash_map', 'cao_lang_table'],
     'cao_lang_table': ['cao_lang_table'],
+    'object_laws': ['object_laws'],
 }
 _built = {}
 
